@@ -198,5 +198,27 @@ PROPS["C14"] = {
     "trusted": _CLIENT_TRUSTED, "assumptions": [],
 }
 
+PROPS["C06"] = {
+    "package": "c06", "exe": "m_c06",
+    "rule": "one repository per consistent-snapshot setting with targets of every size 0..12 (quick) / 0..64 (thorough) and "
+            "64, 255, 256, 1024, 4096, 8192, 65535, 65536 (thorough: each +-1), alternately listed by the top-level role "
+            "and by a delegated role; per target: every chunking of the clean content (sizes <= 6), random chunkings, empty "
+            "chunks, a bit flip at every position (short contents) or at sampled positions, truncation at every/sampled "
+            "position, extension by 1, 2, 100 bytes (inside the last chunk and as an own chunk), substitution by another "
+            "signed target's content, an endless stream after the content and from the start, a transport error at a random "
+            "chunk; names without an entry. Non-trivial: the served stream differs from the signed content or has >= 2 chunks.",
+    "explanation": "Theorems (Tough/Props/C06.lean): for every transport stream the consumer is handed at most the signed "
+                   "length; the stream ends cleanly iff the transport had no error, the content is within the length and its "
+                   "SHA-256 is the recorded digest, and then exactly the content was handed on; chunking is irrelevant. "
+                   "Correspondence: Repository::read_target on a scripted transport, item by item until the first error: "
+                   "bytes delivered, final status and the requested file name vs the model and the specification predicate.",
+    "level_text": "Kernel-checked statements about the two stream adapters for all streams (arbitrary item lists), differential "
+                  "runs of read_target over corruption classes at every position for short contents.",
+    "level_note": "Trusted: Lean kernel, standard axioms; SHA-256 is an abstract function H (the driver uses the digest identity "
+                  "computed by the harness with aws-lc); futures::Stream polling order; the scripted transport.",
+    "trusted": ["modelled, not verified: SHA-256 (abstract H), futures stream combinators, the Transport implementation"],
+    "assumptions": ["a consumer stops at the first error item (into_vec / the save_target loop do)"],
+}
+
 _PENDING = "check under construction in this session (DESIGN.md §10 order of work); not claimed until it runs"
 NOT_APPLICABLE = {f"C{i:02d}": _PENDING for i in range(1, 21)}
